@@ -11,6 +11,10 @@ def check_and_persist_dask_input(data, persist=True):
     # check if input is a dask array. If so, persist and rebalance data
     input_is_dask = False
     if isinstance(data, da.Array):
+        # samples must stay whole: keep the features axis in one chunk so that
+        # each delayed block holds complete rows
+        if data.ndim > 1 and data.numblocks[-1] > 1:
+            data = data.rechunk({data.ndim - 1: -1})
         if persist:
             data: da.Array = data.persist()
         input_is_dask = True
